@@ -76,6 +76,12 @@ def scenarios(rng, tier):
                     lambda nj=nj, cfg=cfg: NNDescent(X if rng.integers(2) else S, n_neighbors=5, n_jobs=nj, random_state=1, **cfg).prepare()))
         out.append(("ok-transformer-fit-transform", nj,
                     lambda nj=nj: pynndescent.PyNNDescentTransformer(n_neighbors=5, n_jobs=nj, random_state=1).fit(X).transform(X_QUERY)))
+        def upd(nj=nj):
+            idx = NNDescent(X, n_neighbors=5, n_jobs=nj, random_state=1)
+            idx.prepare()
+            idx.update(xs_fresh=X[:7] + np.float32(0.5))          # update() re-runs prepare() on a prepared index
+            return idx
+        out.append(("ok-prepare-then-update", nj, upd))
         out.append(("ok-sparse-parallel-batch-prepare-query", nj,
                     lambda nj=nj: NNDescent(S, metric="cosine", n_neighbors=5, n_jobs=nj, random_state=1, parallel_batch_queries=True).query(S[:3], k=3)))
         out.append(("ok-dense-parallel-batch-prepare", nj,
